@@ -940,6 +940,8 @@ def run(ctx):
         "MaskedAutoregressive / Coupling are run with transformers Affine, RationalQuadraticSpline(knots=2), Loc and a two-parameter a*x+b bijection defined in the harness",
     ]
     ctx.trusted.append("ocaml/drv_masks.ml: request parser, float instance (+., *., relu/tanh, softplus, sqrt-sum-of-squares) of the carrier-generic model")
+    from harness import flowcases
+    flowcases.int_dtype_unit(ctx, "C09", bijections=True, distributions=False)
 
 
 def replay(ctx, rep):
